@@ -591,7 +591,7 @@ pub fn cmd_scan(args: &[String]) {
     let seed: u64 = arg(args, "--seed").and_then(|s| s.parse().ok()).unwrap_or(0);
     let lens: Vec<usize> = if thorough { (0..=100).collect() } else {
         let mut v: Vec<usize> = (0..=40).collect();
-        v.extend_from_slice(&[47, 48, 49, 63, 64, 65, 66, 95, 96, 97, 100, 127, 128, 129, 160, 192, 256, 257, 300]);
+        v.extend_from_slice(&[47, 48, 49, 63, 64, 65, 66, 95, 96, 97, 100, 128, 200]);
         v
     };
     let lens: Vec<usize> = if thorough { let mut v = lens; v.extend_from_slice(&[127, 128, 129, 160, 192, 255, 256, 257, 300]); v } else { lens };
@@ -622,17 +622,19 @@ pub fn cmd_scan(args: &[String]) {
                         };
                         // long buffers: a second byte one, two or three vector widths away, both an
                         // offending one and an in-class high one (unrolled loops combine blocks)
-                        if n >= 127 && p > 0 && fill == 97 {
-                            if n > 160 && p % 3 != 0 && !thorough { continue; }
-                            for d in [32usize, 64, 96] {
-                                if p + d <= n { seconds.push((p + d, 0x80)); seconds.push((p + d, 0x7f)); }
-                                if p > d { seconds.push((p - d, 0xff)); }
+                        if n >= 127 {
+                            if fill != 97 || (!thorough && p % 3 != 1) { continue; }
+                            if p > 0 {
+                                for d in [32usize, 64, 96] {
+                                    if p + d <= n { seconds.push((p + d, 0x80)); if thorough || d == 64 { seconds.push((p + d, 0x7f)); } }
+                                    if p > d && (thorough || d == 64) { seconds.push((p - d, 0xff)); }
+                                }
                             }
                         }
                         for (q, qb) in seconds {
                             if q == p { continue; }
                             for (ai, &align) in aligns.iter().enumerate() {
-                                if fill == 9 && ai > 0 { continue; }
+                                if (fill == 9 || (n >= 127 && !thorough)) && ai > 0 { continue; }
                                 let mut stops = [0usize; 256];
                                 for b in 0..256usize {
                                     for i in 0..n { data[i] = fill; }
@@ -667,7 +669,7 @@ pub fn cmd_scan(args: &[String]) {
     // word level: all prefixes of length 7 over a boundary-value alphabet, then every byte,
     // on the word-at-a-time backend (and, after a 32-byte in-class run, as the tail of the
     // selected provider)
-    let alpha: Vec<u8> = if thorough { vec![0x09, 0x1f, 0x20, 0x21, 0x7f, 0x80, 0xa0, 0xff] } else { vec![0x09, 0x1f, 0x20, 0x7f, 0x80, 0xff] };
+    let alpha: Vec<u8> = if thorough { vec![0x09, 0x1f, 0x20, 0x21, 0x7f, 0x80, 0xa0, 0xff] } else { vec![0x09, 0x1f, 0x7f, 0x80, 0xff] };
     let plen = 7usize;
     let total = alpha.len().pow(plen as u32);
     for &(backend, lead) in &[(1u8, 0usize), (0u8, 32usize)] {
